@@ -30,7 +30,7 @@ MCPol ==
  @@ "M3" :> ([rules |-> [main |-> <<[pr |-> P, thr |-> 3]>>, feat |-> <<>>]] @@ NoGlobal)
  @@ "T0" :> ([rules |-> [main |-> <<[pr |-> {"p1"}, thr |-> 1]>>, feat |-> <<>>]] @@ NoGlobal)
 
-PolIds == CASE Family = "merge" -> {"A", "C", "M3", "T"} [] Family \in {"window", "tworec"} -> {"A", "B"} [] Family \in {"approvals", "apprskip", "apprlate"} -> {"R"} [] Family = "nopolicy" -> {"A"} [] Family = "chain" -> {"A", "B"} [] Family = "global" -> {"A", "G", "H", "T", "K"} [] Family = "recovery" -> {"A", "B"} [] OTHER -> {"A", "B", "C"}
+PolIds == CASE Family = "merge" -> {"A", "C", "M3", "T", "R"} [] Family \in {"window", "tworec"} -> {"A", "B"} [] Family \in {"approvals", "apprskip", "apprlate"} -> {"R"} [] Family = "nopolicy" -> {"A"} [] Family = "chain" -> {"A", "B"} [] Family = "global" -> {"A", "G", "H", "T", "K"} [] Family = "recovery" -> {"A", "B"} [] OTHER -> {"A", "B", "C"}
 MainSigners == CASE Family = "merge" -> {"p1"} [] Family \in {"window", "tworec"} -> {"p1", "p3"} [] Family \in {"approvals", "apprskip", "apprlate"} -> {"p1", "kU"} [] Family = "chain" -> {"p1", "p3"} [] Family = "global" -> {"p1", "p3", "kU"} [] Family = "recovery" -> {"p1", "p3"} [] OTHER -> {"p1", "p2", "p3", "kU", "none"}
 
 PrevOf(l, r) == LET S == {j \in 1..Len(l) : IsFor(l[j], r)} IN IF S = {} THEN 0 ELSE Max(S)
@@ -67,6 +67,10 @@ AttEntries(l) ==
     ELSE IF Family = "merge" THEN
          {[k |-> "att", apps |-> {App("main", PrevOf(l, "main"), t, "main", PrevOf(l, "main"), t, by)}, crs |-> {}] :
               t \in {1, 2}, by \in {{"p1"}, {"p2"}, {"p2", "p3"}, {"p1", "p2", "p3"}, {"kU"}}}
+         \* both kinds of approval for the same change: an authorization and a code-review approval by a trusted app
+         \cup {[k |-> "att", apps |-> IF wa THEN {App("main", PrevOf(l, "main"), t, "main", PrevOf(l, "main"), t, {"p2"})} ELSE {},
+                 crs |-> {Cr("main", PrevOf(l, "main"), t, "main", PrevOf(l, "main"), t, "appT", "appkey", ap)}] :
+                  t \in {1, 2}, ap \in {{"p3"}, {"p2"}, {"p2", "p3"}}, wa \in BOOLEAN}
     ELSE {[k |-> "att", apps |-> {App("main", f, t, "main", f, t, by)}, crs |-> {}] :
               f \in {PrevOf(l, "main")}, t \in {1, 2}, by \in {{"p2"}, {"p2", "p3"}}}
          \cup {[k |-> "att", apps |-> {}, crs |-> {}]}
